@@ -3,7 +3,7 @@ use super::c01::gen_chain;
 use crate::core::{guarded, panic_sig, Property, Rec, Tier, Workload};
 use crate::drive::*;
 use crate::hookmon;
-use crate::json::esc_short;
+use crate::json::{esc, esc_short};
 use crate::model::*;
 use crate::rng::Rng;
 use crate::wire::*;
@@ -482,6 +482,52 @@ fn mutate(rng: &mut Rng, stream: &mut Vec<u8>) -> &'static str {
     }
 }
 
+/// Whatever redirect the server sends, the calls a caller may make in the Redirect state afterwards - ask
+/// for a new flow, ask again with the other policy when none came, read the status, move on - return.
+fn redirect_calls_case(idx: u64, rec: &mut Rec) {
+    use ureq_proto::client::flow::RedirectAuthHeaders;
+    let status = [301u16, 302, 303, 307, 308][(idx % 5) as usize];
+    let (method, despite) = [("GET", false), ("POST", false), ("DELETE", false), ("HEAD", false), ("PUT", false), ("GET", true)][(idx / 5 % 6) as usize];
+    let loc: Option<&[u8]> = [Some(&b"http://b.test/abs?x=1"[..]), Some(b"/rel"), None, Some(b"/n\xe9"), Some(b"//c.test"), Some(b"mailto:a@b.test")][(idx / 30 % 6) as usize];
+    let first_policy = if idx / 180 % 2 == 0 { RedirectAuthHeaders::Never } else { RedirectAuthHeaders::SameHost };
+    let mut cfg = ReqCfg::new(method, "http://a.test/start").h("authorization", b"t").h("cookie", b"c=1");
+    cfg.despite = despite;
+    let mut head = format!("HTTP/1.1 {} R\r\n", status).into_bytes();
+    if let Some(l) = loc {
+        head.extend_from_slice(b"Location: ");
+        head.extend_from_slice(l);
+        head.extend_from_slice(b"\r\n");
+    }
+    head.extend_from_slice(b"Content-Length: 0\r\n\r\n");
+    let r = match fast_to_recv(&cfg).and_then(|f| fast_response(f, &head)) {
+        Ok((End::Redirect(r), ..)) => r,
+        Ok(_) => return rec.cov("redirect-calls/no-redirect-state"),
+        Err(e) => return rec.fail("C12/setup", e),
+    };
+    rec.call();
+    let res = guarded(move || {
+        let mut r = r;
+        let first = r.as_new_flow(first_policy).map(|o| o.is_some());
+        let second = if first != Ok(true) {
+            let other = if first_policy == RedirectAuthHeaders::Never { RedirectAuthHeaders::SameHost } else { RedirectAuthHeaders::Never };
+            Some(r.as_new_flow(other).map(|o| o.is_some()))
+        } else {
+            None
+        };
+        let _ = r.status();
+        let _ = r.must_close_connection();
+        let _ = r.proceed();
+        (first, second)
+    });
+    match res {
+        Err((l, m)) => rec.fail(&format!("C12/{}-in-redirect-calls", panic_sig(&l, &m)), format!("{} answered {} Location {:?}: {} at {}", method, status, loc.map(esc), m, l)),
+        Ok((first, second)) => {
+            rec.ev(|| format!("{} {} Location {:?}: as_new_flow -> {:?}, asked again -> {:?}", method, status, loc.map(esc), first, second));
+            rec.cov(if second.is_some() { "redirect-calls/asked-twice" } else { "redirect-calls/followed" });
+        }
+    }
+}
+
 fn mutation_case(rng: &mut Rng, rec: &mut Rec) {
     let lane = crate::core::lane_mode();
     let body_max = if lane { 24 } else if rng.chance(1, 8) { 12_000 } else { 200 };
@@ -568,11 +614,17 @@ fn mutation_case(rng: &mut Rng, rec: &mut Rec) {
         AnyFlow::RecvBody(f) => {
             let _ = f.can_proceed();
             if let Some(ureq_proto::client::flow::RecvBodyResult::Redirect(mut r)) = f.proceed() {
-                let _ = r.as_new_flow(ureq_proto::client::flow::RedirectAuthHeaders::Never);
+                let first = r.as_new_flow(ureq_proto::client::flow::RedirectAuthHeaders::Never);
+                if !matches!(first, Ok(Some(_))) {
+                    let _ = r.as_new_flow(ureq_proto::client::flow::RedirectAuthHeaders::SameHost);
+                }
             }
         }
         AnyFlow::Redirect(mut f) => {
-            let _ = f.as_new_flow(ureq_proto::client::flow::RedirectAuthHeaders::SameHost);
+            let first = f.as_new_flow(ureq_proto::client::flow::RedirectAuthHeaders::SameHost);
+            if !matches!(first, Ok(Some(_))) {
+                let _ = f.as_new_flow(ureq_proto::client::flow::RedirectAuthHeaders::Never);
+            }
             let _ = f.proceed();
         }
         AnyFlow::SendBody(f) => {
@@ -640,6 +692,7 @@ impl Property for P {
             Workload::new("byte-sweeps", 8 * 256, true, "every byte value at 8 head positions and 2 chunk positions"),
             Workload::new("chunk-size-lines", 24 * 8 * 2, true, "chunk size lines of every length 1..=24 x 8 digit patterns x extension"),
             Workload::new("mutations", tier.pick(30_000, 6_000_000), false, "mutated valid exchanges under random schedules"),
+            Workload::new("redirect-calls", 360, true, "5 statuses x 6 request shapes x 6 Locations x 2 policies: every call the Redirect state offers, a declined or failed follow asked again"),
             Workload::new("five-close-conditions", 64, true, "HTTP/1.0 + client close + refused 100 + server close + close-delimited"),
         ]
     }
@@ -672,6 +725,7 @@ impl Property for P {
                 }
             }
             "byte-sweeps" => sweep_case(idx, rec),
+            "redirect-calls" => redirect_calls_case(idx, rec),
             "chunk-size-lines" => size_line_case(idx, rec),
             "mutations" => {
                 let mut rng = Rng::derive(seed, wl, idx);
